@@ -247,7 +247,7 @@ func checkC02(c *Ctx) {
 				// blank-line separation is only uniform (identical Before/After on every element)
 				// where gofmt keeps the empty lines next to the delimiters: blocks and clause lists,
 				// and top-level declarations (every declaration has an empty line before it)
-				if blank && !(t.Name == "BlockStmt.List" || t.Name == "BlockStmt.List(mixed)" || t.Name == "BlockStmt.List(if)" || strings.HasSuffix(t.Name, "Cases") || strings.HasSuffix(t.Name, "Comms") || t.Name == "File.Decls") {
+				if blank && !(t.Name == "BlockStmt.List" || t.Name == "BlockStmt.List(mixed)" || t.Name == "BlockStmt.List(if)" || strings.HasSuffix(t.Name, "Cases") || strings.HasSuffix(t.Name, "Comms") || strings.HasPrefix(t.Name, "File.Decls")) {
 					continue
 				}
 				for k := 0; k < perLayout; k++ {
@@ -279,6 +279,7 @@ func checkC02(c *Ctx) {
 		}
 		c.Eval(key, nc > 0)
 		c.Traces(1)
+		c.Add("cases|"+j.t.Name, 1)
 		if sig != "" {
 			c.Fail(Finding{Sig: sig, Input: key, What: truncate(what, 1200), Replay: obj{"kind": "c02", "template": j.t.Name, "decs": j.decs, "blank": j.blank, "hist": j.h}})
 		}
